@@ -5,7 +5,7 @@ import WuffsVerif.Model.JpegIdctRange
 import WuffsVerif.Model.HashSpec
 /-! Line driver for C09.  Ops:
   init <options> <selfNull 0|1> <sizeof_star_self> <wuffs_version> <prior> <obj…>
-        prior = z | c:<hh> | r:<seed> | h:<hex>
+        prior = z | c:<hh> | r:<seed> | q:<seed> (r with zero magic bytes) | h:<hex>
         obj   = O <size> <implSize> <nChoosy> (<off> <sym>)* <nVt> (<off> <sym>)* <nSubs> (<off> obj)*
      -> ok <rle of the object's bytes after initialize> | err <status>
         rle: tokens joined by '.', token = hh | pp (pointer byte), optionally *count
@@ -75,6 +75,8 @@ def parsePrior (s : String) : Option Mem :=
     | _ => none
   else if s.startsWith "r:" then
     (s.drop 2).toString.toNat?.map (fun seed => fun i => .byte (prngByte seed i))
+  else if s.startsWith "q:" then   -- PRNG bytes, but the first four (the magic field) zero
+    (s.drop 2).toString.toNat?.map (fun seed => fun i => .byte (if i < 4 then 0 else prngByte seed i))
   else if s.startsWith "h:" then
     (fromHexArr (s.drop 2).toString).map (fun arr => fun i => .byte (if i < arr.size then arr.get! i else 0))
   else none
@@ -104,6 +106,8 @@ def initOp (l : List String) : String :=
   | opts :: sn :: sz :: ver :: prior :: desc =>
     match opts.toNat?, sn.toNat?, sz.toNat?, ver.toNat?, parsePrior prior, parseObj 64 desc with
     | some o, some selfNull, some sizeArg, some v, some m, some (obj, []) =>
+      -- the theorems of Props/C09.lean assume a well-formed layout: every real one must be
+      if !obj.wf then "ill-formed-layout" else
       match wuffsInitialize obj (selfNull != 0) sizeArg v o m with
       | .error e => "err " ++ statusWord e
       | .ok r => "ok " ++ rle ((List.range obj.size).map (fun i => cellTok (r i)))
